@@ -1533,6 +1533,50 @@ func TestVerifFmtTrace(t *testing.T) {
 				return nil
 			})
 			fmt.Printf("VERIF-FMT corpus inputs=%d\n", n)
+		case "verifyconc": // C06: several verifications in flight at once, each goroutine on its own message (its own digest)
+			const G = 12
+			var wg sync.WaitGroup
+			start := make(chan struct{})
+			for g := 0; g < G; g++ {
+				wg.Add(1)
+				go func(g int) {
+					defer wg.Done()
+					w := vfNewSigWorld(seedStr, 100+g)
+					n := []int{1, 3, 4, 7, 13, 19}[g%6]
+					names := make([]string, n)
+					for k := range names {
+						names[k] = fmt.Sprintf("k%d", k+1)
+					}
+					q := (2*n)/3 + 1
+					idx := make([]int, q)
+					sigs := make([][65]byte, q)
+					for k := 0; k < q; k++ {
+						idx[k] = k + (n - q)
+						sigs[k] = w.concrete(names[idx[k]], 0)
+					}
+					bad := append([][65]byte{}, sigs...)
+					bad[q-1] = w.concrete("JUNK", 0) // the last signature is over another body: must be refused every time
+					seen := map[string]bool{}
+					<-start
+					for it := 0; it < 400+N; it++ {
+						for _, sg := range [][][65]byte{sigs, bad} {
+							a, st := w.vfEvalVerify(names, idx, sg, vfRealVerify)
+							key := fmt.Sprint(a["sigs"], st)
+							if seen[key] || len(seen) >= 6 {
+								continue
+							}
+							seen[key] = true
+							a["src"] = "gen-verify-concurrent"
+							tr.Emit(2, "Verify", a, st)
+						}
+						if it%16 == 0 {
+							runtime.Gosched()
+						}
+					}
+				}(g)
+			}
+			close(start)
+			wg.Wait()
 		case "verify": // C06: lists of up to 256 addresses, repeated addresses, index 255, random corruptions
 			type evfn struct {
 				ev string
